@@ -58,6 +58,18 @@ CHECKS = {
    text="KeyId.tla models a key as its description (type, scheme, hash-algorithm list, material) with an injective intrinsic id, every public construction path as an action with its intended effect on the description, and key-table parsing. TLC enumerates all paths of length <= 4 per key type (invariants: material and type never change, JSON round trips are identities) and all tables over 3 keys with misfiled entries. Each path is run on every fixture key: key_id() must equal sha256 of an independently rendered description after every step, exports must be byte-identical to standard SubjectPublicKeyInfo built from RFC templates; each table is parsed in a layout and aliased entries are exercised end to end through in_toto_verify (a signature labelled X is only checked against the key whose id is X).",
    note="Trusted: TLC, sha256 (ring), the DER templates of the harness, serde_json. Key material: committed fixture keys (9 ed25519, 3 P-256, 2+2 RSA).",
    tech="TLA+ spec KeyId.tla model-checked with TLC; spec->impl replay of every path / table on real keys with independent id and SPKI oracles"),
+ "C16": dict(cat="model_checking", ref="§4 C16, §3.5",
+   text="Wire.tla gives the artifact-rule grammar as a parser machine (checked by TLC against a functional grammar and for round trip on every valid form and every single-token mutation) and the document life cycle value -> text -> value' -> text''. TLC enumerates shape descriptors of links and layouts (every optional part and variant, incl. extra byproducts named like typed members). Every document is built with the builders and must round-trip as signed block, wrapper and bare metadata, compact and pretty; every accepted token sequence must parse to the grammar's value and serialise to the same tokens.",
+   note='Trusted: TLC, serde_json (reader / writer / Value), the harness document builders. Descriptor-based: each optional part / variant is a descriptor dimension; string content by class; field universes are the top-level members.',
+   tech='TLA+ spec Wire.tla (rule parser machine, document life cycle) model-checked with TLC; spec->impl replay of every descriptor / token sequence'),
+ "C17": dict(cat="model_checking", ref="§4 C17, §3.5",
+   text="Every document of the Wire.tla instance - rule token sequences (accepted and rejected), link and layout descriptors as signed block / wrapper / bare metadata, predicate and statement field subsets - is parsed through 4 channels (str, slice, reader, JSON tree) x 3 spellings (plain, whitespace, all characters \\\\uXXXX-escaped with members reversed); Wire.tla's Parse step is channel-independent, so all 12 results must agree on accept / reject and value.",
+   note='Trusted: TLC, serde_json (reader / writer / Value), the harness document builders. Descriptor-based: each optional part / variant is a descriptor dimension; string content by class; field universes are the top-level members.',
+   tech='TLA+ spec Wire.tla enumerated with TLC; every document decoded through all channel x spelling combinations and compared'),
+ "C19": dict(cat="model_checking", ref="§4 C19, §3.5",
+   text="Wire.tla states the closed schemas of the naive / v0.1 statements and Link v0.2 / SLSA v0.1 / v0.2 predicates; TLC proves them pairwise disjoint over every subset of the field universes (so recognition yields at most one version) and enumerates every field subset x materials kind x timestamp form and declared type x contained format. Each document is parsed with the version-detecting parsers: accepted documents must be recognised as the schema's version (judge_from_value agreeing), round-trip through canonical bytes and JSON, and type / predicate mismatches must be rejected; statements built from link metadata must carry name, artifacts, command, byproducts and environment unchanged.",
+   note='Trusted: TLC, serde_json (reader / writer / Value), the harness document builders. Descriptor-based: each optional part / variant is a descriptor dimension; string content by class; field universes are the top-level members.',
+   tech='TLA+ spec Wire.tla (schemas, disjointness theorem) checked with TLC; spec->impl replay of every field-subset document'),
  "C03": dict(cat="model_checking", ref="§4 C03, §3.3",
    text="Rules.tla transcribes the in-toto specification's artifact-rule algorithm (functional form and a state machine with one Apply step per rule; TLC checks that both agree, that the queue only shrinks and that a rule only consumes artifacts its pattern / source prefix matches). TLC enumerates rule lists x item link states x referenced-step states; every scenario is run through the real rule engine and the verdict must equal the specification's; seeded random scenarios beyond the bounds (up to 4+4 rules, 6 paths, nested prefixes) are validated step by step (consumed set and remaining queue after every rule, hook in rulelib.rs) against Trace_Rules.tla.",
    note="Trusted: TLC, glob::Pattern (default options) as fnmatch, the harness builders. Inputs restricted to C03's own quantifier: normalised relative paths, portable glob syntax; '[' only in DISALLOW. Bounds: 3 paths, 57-rule alphabet, rule lists <= 2 in TLC (<= 4+4 in traces).",
